@@ -241,6 +241,10 @@ def gen_program(tape, feat):
         # different tyme, and were cut off by a limit; the measured run must not see anything of it
         prog["prior"] = dict(same=tape.flag("prior_same_doist", 1, 2), tyme=tape.pick("prior_tyme", [50.0, 0.0, 3.25]),
                              cycles=1 + tape.draw("prior_cycles", 4))
+        # how the earlier run ended: cut off by its limit (between cycles), or by a doer of that run raising in the middle of a
+        # cycle (the caller caught it and uses the scheduler again)
+        prog["prior"]["end"] = tape.pick("prior_end", ["limit", "limit", "raise"])
+        prog["prior"]["bomb_at"] = tape.draw("prior_bomb_at", 4)
     if feat.get("allow_empty") and prog.get("args", {}).get("doers") and tape.flag("empty_doers", 1, 6):
         # do(doers=[]) on a scheduler that still holds the doers of an earlier use: the run is over the empty set
         prog["stale"] = prog["roots"]
@@ -744,16 +748,36 @@ def execute(prog, res=None, mode="do", vloop_factory=None, noise=None):
         pr = prog["prior"]
         roots = [run.objs[r] for r in prog["roots"]]
         run.muted = True
+        pdoers = list(roots)
+        plimit = pr["cycles"] * prog["T"]
+        if pr.get("end") == "raise":
+            ncyc = pr["cycles"]
+
+            def bomb(tymth, tock=0.0, **opts):
+                for _ in range(ncyc):
+                    yield tock
+                raise SimFault("prior run")
+            bomb.tock = 0.0
+            bomb.done = None
+            bomb.opts = {}
+            pdoers.insert(min(pr.get("bomb_at", 0), len(pdoers)), bomb)
+            plimit = (pr["cycles"] + 3) * prog["T"]
         try:
             with clock_installed(clock):
                 if pr["same"]:
                     keep = (doist.tyme, doist.limit, list(doist.doers), run.cycles)
-                    doist.do(doers=roots, tyme=pr["tyme"], limit=pr["cycles"] * prog["T"])
+                    try:
+                        doist.do(doers=pdoers, tyme=pr["tyme"], limit=plimit)
+                    except SimFault:
+                        pass
                     doist.tyme, doist.limit = keep[0], keep[1]
                     doist.doers = keep[2]
                     doist.done = None
                 else:
-                    doing.Doist(tock=prog["T"], tyme=pr["tyme"], real=False, limit=pr["cycles"] * prog["T"]).do(doers=roots)
+                    try:
+                        doing.Doist(tock=prog["T"], tyme=pr["tyme"], real=False, limit=plimit).do(doers=pdoers)
+                    except SimFault:
+                        pass
         finally:
             run.muted = False
         run.cycles = 0
@@ -762,7 +786,7 @@ def execute(prog, res=None, mode="do", vloop_factory=None, noise=None):
             st.entered = st.exited = 0
             st.outcome = st.last_ret = st.exc_kind = None
         if res is not None:
-            res.faults["prior_run_cut_off_by_limit"] += 1
+            res.faults["prior_run_cut_off_by_limit" if pr.get("end") != "raise" else "prior_run_ended_by_a_raise_mid_cycle"] += 1
     if prog.get("kbint_sleep") is not None:
         target = prog["kbint_sleep"]
 
